@@ -233,7 +233,7 @@ static void run_module(Ctx& c, uint64_t k, uint64_t a_size, uint64_t dft_size, u
   uint64_t nz = 0;
   for (uint64_t i = 0; i < a_size; ++i)
     for (uint64_t j = 0; j < N; ++j) {
-      int64_t v = gen_coeff(fam + (int)(i & 1 ? 0 : 0), j, r);
+      int64_t v = gen_coeff(fam, j, r);
       a[i * a_sl + j] = v;
       saw_min |= v == INT64_MIN;
       saw_max |= v == INT64_MAX;
